@@ -709,7 +709,13 @@ func assertMerge(vm *VM, t Term, merge func([]clause, []clause) []clause, env *E
 		vm.procedures[pi] = p
 	}
 
-	added, err := compile(t, env)
+	// The clause to be stored is the term in force now: bindings applied and variables renamed apart.
+	c, err := renamedCopy(t, nil, env)
+	if err != nil {
+		return err
+	}
+
+	added, err := compile(c, nil)
 	if err != nil {
 		return err
 	}
